@@ -585,6 +585,28 @@ CHECKS = {
         required=["empty_matches_in_histories", "empty_match_before_multibyte_char", "histories_with_adjacent_matches", "histories_checked_against_reference", "histories_with_nonzero_start_and_match", "histories.find_from_ascii", "histories.pikevm", "predicate.StartAnchored"],
         extra=lambda m: dict(histories=group_counters(m.counters, "histories"), predicate_kinds=group_counters(m.counters, "predicate."), empty_matches=m.c("empty_matches_in_histories"), empty_match_before_multibyte_char=m.c("empty_match_before_multibyte_char")),
     ),
+    "C10": simple_check(
+        "C10",
+        "c10",
+        "code-space sweeps in the three modes i / iu / iv: (0) hook sweep of the engine's Canonicalize for all 1,114,112 code points x 2 relations; (1) every aligned 256-code-point block as a class /[B]/i scanned over a haystack holding every scalar value (quick: all blocks containing a case-related code point + a seed-selected eighth of the others; thorough: all 4352);"
+        " (2) /c/i for code points c (quick: all case-related ones + a seed-selected 1/97 of the others; thorough: every code point incl. surrogates) run on a haystack of all case-related characters + c (thorough: case-related ones also over all scalars); (3) for every non-trivial equivalence class and ordered member pair: [c], [^c] on a member and on an outsider, (c)\\1, named backreference, backreference in lookbehind, [c-c], and the ASCII entry point for ASCII pairs; (4) \\w \\W \\b [\\w] [\\W] for every code point whose class meets the ASCII word characters."
+        " A case is one (construct, mode, code point / pair / block); non-trivial iff a case-related code point is involved.",
+        ["legacy relation: std (Unicode 17) char::to_uppercase with the two ECMAScript exceptions -- exact", "unicode relation: regex-syntax 16.0 simple-case-folding orbits; pairs among code points unassigned in 16.0 are taken from std 17 single-character lower/upper mappings (coverage.code_points_with_orbit_from_std17) -- an assumption for those code points"],
+        required=["blocks_scanned", "literal_code_points", "construct.backreference", "construct.negated_class", "construct.word_probes", "construct.ascii_literal", "hook_canonicalize_calls"],
+        extra=lambda m: dict(constructs=group_counters(m.counters, "construct."), blocks_scanned=m.c("blocks_scanned"), literal_code_points=m.c("literal_code_points"), classes=m.c("classes"), ordered_pairs=m.c("ordered_pairs"), hook_canonicalize_calls=m.c("hook_canonicalize_calls"), code_points_with_orbit_from_std17=m.c("code_points_with_orbit_from_std17") // 16),
+        mem_gb=8,
+    ),
+    "C11": simple_check(
+        "C11",
+        "c11",
+        "every ECMAScript spelling (53 binary properties and aliases; 38 General_Category values x long/short/extra aliases x bare / gc= / General_Category=; 175 Script values x long/ISO alias x sc / Script / scx / Script_Extensions) is compiled with \\p under u and its matched set obtained by one find_iter over a haystack holding all 1,112,064 scalar values; all spellings of a value must give the same set; \\P, [..], [^..] under u and v must give the set or its complement."
+        " Layers: L1 equality with exact Unicode 17 sources (std 17, unicode-ident 17, closed forms); L2 algebra (gc leaves and scripts partition the code space, groups = unions, sc/scx inclusions, ~35 derived inclusions, Any/ASCII/Assigned); L4 equality with regex-syntax 16.0 on code points assigned in 16.0 modulo the pinned drift file; ~4000 near-miss names must be rejected; properties of strings: placement rules, 12 keycap sequences, 676 regional-indicator pairs, tag sequences, modifier sequences vs the engine's own Emoji_Modifier_Base x Emoji_Modifier, Basic_Emoji singles and VS16 forms, longest-first."
+        " A case is one scanned set, identity, name probe or string membership question; non-trivial iff the set is non-empty.",
+        ["L4 rests on data/ucd16_17_drift.json, produced from the pinned tree and reviewed for plausibility, not independently confirmed (a wrong entry inside the pinned drift would be missed)", "surrogate code points are not reachable through UTF-8 haystacks (gc=Cs is checked to be empty there; the UCS-2 entry point is exercised in C14)", "the sequence sub-property names (RGI_<X>_Sequence vs RGI_Emoji_<X>_Sequence) are not claimed either way", "Script=Katakana_Or_Hiragana is not claimed either way", "contents of Basic_Emoji / ZWJ / flag sets are checked structurally, not against emoji-sequences 17"],
+        required=["layer.L1_exact_unicode17", "layer.L4_cross_version", "algebra_identities", "rejected_name_probes", "string_membership_questions", "flag_sequences", "modifier_sequences", "drift_entries_used"],
+        extra=lambda m: dict(layers=group_counters(m.counters, "layer."), property_values=m.c("property_values") // 16, spellings=m.c("spellings"), sets_scanned=m.c("sets_scanned"), algebra_identities=m.c("algebra_identities"), rejected_name_probes=m.c("rejected_name_probes"), string_membership_questions=m.c("string_membership_questions"), drift_entries_used=m.c("drift_entries_used"), flag_sequences=m.c("flag_sequences"), modifier_sequences=m.c("modifier_sequences"), exhaustive=True),
+        mem_gb=8,
+    ),
     "C12": simple_check(
         "C12",
         "c12",
